@@ -280,6 +280,8 @@ func Reference(cwd string, inv *Inv, stdin []byte) *Expect {
 		return exp.nj("usage:stdin-without-type")
 	case c.mime != "" && inv.Sync:
 		return exp.nj("usage:sync-with-type")
+	case inv.Bundle && inv.Sync:
+		return exp.nj("usage:sync-with-bundle")
 	case output == "" && !inv.Bundle && len(inputs) > 1:
 		return exp.nj("usage:many-inputs-to-stdout")
 	}
@@ -315,6 +317,11 @@ func Reference(cwd string, inv *Inv, stdin []byte) *Expect {
 	}
 	if inv.PatternEqFollowed {
 		exp.Known = "N01"
+	}
+	for _, p := range append(append([]string{}, inv.Match...), inv.Filters...) {
+		if strings.HasPrefix(strings.TrimLeft(p, "+-"), "~") && exp.Known == "" {
+			exp.Known = "N05" // regular-expression patterns: the command keeps the tilde in the expression
+		}
 	}
 
 	// output kind [R2]
@@ -546,6 +553,9 @@ func Reference(cwd string, inv *Inv, stdin []byte) *Expect {
 			t.InPlace = true
 			if c.abs(s) != c.abs(t.Dst) {
 				t.Alias = true
+			} else if filepath.Clean(s) != filepath.Clean(t.Dst) {
+				// same file spelled differently (absolute vs relative): same root cause as K41
+				exp.Known = "K41"
 			} else {
 				real, err := filepath.EvalSymlinks(c.abs(s))
 				if err != nil || real != c.abs(s) {
@@ -555,6 +565,13 @@ func Reference(cwd string, inv *Inv, stdin []byte) *Expect {
 		}
 		if t.Alias {
 			exp.Known = "K41"
+		}
+		if t.InPlace && exp.Known == "" {
+			for _, s := range t.Srcs {
+				if _, err := os.Lstat(c.abs(s) + ".bak"); err == nil {
+					exp.Known = "N04" // a pre-existing <name>.bak is overwritten by the backup and then removed
+				}
+			}
 		}
 		if t.Link {
 			target, err := os.Readlink(c.abs(t.Srcs[0]))
@@ -650,9 +667,16 @@ func Reference(cwd string, inv *Inv, stdin []byte) *Expect {
 					same = false
 				}
 			}
-			if modeJ && same {
+			if modeJ && same && len(t.Srcs) == 1 { // what preserving means for a bundle is not documented
 				m := perms[0]
 				ef.Mode = &m
+			}
+			if len(t.Srcs) == 1 && !outIsDir && !useStdin {
+				// N06: the output is a single file, yet the command also copies the attributes of the
+				// source's parent directories onto the parent directories of the output file
+				if rel, err := filepath.Rel(t.Root, t.Srcs[0]); err == nil && filepath.Dir(rel) != "." && exp.Known == "" {
+					exp.Known = "N06"
+				}
 			}
 			if timeJ && len(t.Srcs) == 1 {
 				ef.Mtime = &mt
@@ -689,6 +713,11 @@ func Reference(cwd string, inv *Inv, stdin []byte) *Expect {
 		}
 	}
 	exp.Tasks = tasks
+	for _, t := range tasks {
+		if t.InPlace && !strings.Contains(exp.Shape, "+inplace") {
+			exp.Shape += "+inplace"
+		}
+	}
 	return exp
 }
 
